@@ -36,7 +36,7 @@ class CheckC13(core.Check):
     rule = (
         "case = a batch of name strings parsed by the real parser, each judged by an independent recogniser written from spec "
         "section 8: (a) the full product of valid components, (b) every single-character insertion / deletion / replacement / "
-        "duplication at every position of sampled valid names, (c) longest-prefix traps and psk numeral forms, (d) random strings; "
+        "duplication at every position of sampled valid names, (c) longest-prefix traps, psk numeral forms, duplicates of any position 0..255 at any distance, (d) random strings, strings of 256..5000 bytes; "
         "distinct key = the string itself; non-trivial = the string was judged valid or invalid (not 'unspecified')"
     )
     assumptions = ["psk numerals that are non-canonical (psk01) or above 9 are 'unspecified' (recorded, fields still checked when accepted)"]
@@ -94,6 +94,19 @@ class CheckC13(core.Check):
                     continue
                 for lst in ([a, b, a], [a, a, b], [b, a, a], [a, b, b, a], [a, b, "psk4", a], [b, a, "psk4", "psk2" if "psk2" not in (a, b) else "psk3", a]):
                     out.append("Noise_%s%s_%s_%s_%s" % (rnd.choice(PATTERN_NAMES), "+".join(lst), rnd.choice(DHS), rnd.choice(CIPHERS), rnd.choice(HASHES)))
+        # duplicates of any psk position (the numeral range is 0..255), adjacent or apart
+        for k in list(range(4, 13)) + [31, 32, 33, 63, 64, 65, 99, 100, 127, 128, 129, 200, 254, 255]:
+            for lst in (["psk%d" % k] * 2, ["psk%d" % k, "fallback", "psk%d" % k], ["psk%d" % k, "psk0", "psk%d" % k], ["psk0", "psk%d" % k, "psk1", "psk%d" % k]):
+                out.append("Noise_%s%s_%s_%s_%s" % (rnd.choice(PATTERN_NAMES), "+".join(lst), rnd.choice(DHS), rnd.choice(CIPHERS), rnd.choice(HASHES)))
+            out.append("Noise_%spsk%d+psk%d_%s_%s_%s" % (rnd.choice(PATTERN_NAMES), k, (k + 1) % 256, rnd.choice(DHS), rnd.choice(CIPHERS), rnd.choice(HASHES)))
+        # strings longer than 255 bytes (the spec's limit for a name) are strings like any other: pattern errors
+        for ln in (256, 257, 300, 1000, 5000):
+            out.append("Noise_XX_25519_AESGCM_SHA256" + "_" * (ln - 28))
+            out.append("Noise_" + "X" * (ln - 26) + "_25519_AESGCM_SHA256")
+            out.append("Noise_XX" + "+".join(["psk0"] * (ln // 5)) + "_25519_AESGCM_SHA256")
+            out.append("Noise_XX_25519_AESGCM_SHA256".ljust(ln, "A"))
+            out.append("".join(rnd.choice(ALPHABET) for _ in range(ln)))
+            out.append("Noise_NNpsk1+psk2+" + "+".join("psk%d" % i for i in range(3, 3 + ln // 6)) + "_25519_ChaChaPoly_BLAKE2s")
         # prefix traps
         for hsf in ["X1X1", "X1X", "X1", "X", "XK1", "XK", "Xpsk1", "XKpsk1", "XK1psk1", "IK1", "I1K", "I1K1", "I1", "I", "IKpsk1", "I1psk1", "NK1psk0", "N1", "K1", "KK1K", "XXX", "NNN", "XX1X", "X1X1X", "1X", "xx", "Xx", "NNpsk0psk1", "NN+psk0", "NNpsk0+", "NN+", "NNfallback", "NNFallback", "NNhfs", "NNpsk0+hfs", "NNpsk", "NNps", "NNp"]:
             for tail in ["25519_AESGCM_SHA256", "P256_XChaChaPoly_BLAKE2b", "448_ChaChaPoly_SHA512", "25519+Kyber1024_AESGCM_SHA256"]:
